@@ -31,11 +31,18 @@ func (pass *ConstantToEnum) processObject(_ *Visitor, _ *ast.Schema, object ast.
 		return object, nil
 	}
 
+	// the kind of a constant says nothing about the Go type of its value:
+	// `{"type": "string", "const": 3}` holds a json.Number
+	value, isString := object.Type.Scalar.Value.(string)
+	if !isString {
+		return object, nil
+	}
+
 	object.Type = ast.NewEnum([]ast.EnumValue{
 		{
 			Type:  ast.String(),
-			Name:  object.Type.Scalar.Value.(string),
-			Value: object.Type.Scalar.Value.(string),
+			Name:  value,
+			Value: value,
 		},
 	})
 	object.AddToPassesTrail("ConstantToEnum")
